@@ -294,6 +294,11 @@ func runRegions(w *world, in bulkIn) *hist.Violation {
 			return infra(ctx, err)
 		}
 		ack()
+	case "shutdown":
+		if err := w.shutdownReopen(); err != nil {
+			return infra(ctx, err)
+		}
+		ack()
 	case "switch":
 		// the configuration is reloaded while regions wait in the region storage's batch:
 		// default storage selected, Flush (must still make them durable), region storage again
@@ -513,6 +518,10 @@ func regionInputs(tier string) []bulkIn {
 				l = append(l, bulkIn{kind: "region", backend: "mem", n: c.n, ids: ids, variant: "plain", L: c.L, failAt: k})
 			}
 		}
+	}
+	// region storage: acknowledged by Close after the server context has been cancelled (shutdown order)
+	for _, n := range []int{1, 7, 99, 100, 101, 250} {
+		l = append(l, bulkIn{kind: "region", backend: "rs", n: n, ids: "dense1", variant: "shutdown"})
 	}
 	// region storage: the backend selection changes between the saves and the Flush
 	for _, n := range []int{1, 7, 99, 100, 101, 250} {
